@@ -43,8 +43,6 @@ LS = "src/betterproto/lib/std/google/protobuf/__init__.py"
 LP = "src/betterproto/lib/pydantic/google/protobuf/__init__.py"
 
 EXPECTED_MISSES = {
-    "C19-4": "regex word-splitting change (digit boundary): same clause as C19-1, not decided",
-    "C19-1": "regex word-splitting change: the key-retraction clause of C19 is a property of regular-expression semantics and is not decided (DESIGN section 7)",
 }
 
 # (id, property, expected rule prefix, edits)
@@ -76,6 +74,9 @@ FIRE: List[Tuple[str, str, str, List[Tuple[str, str, str]]]] = [
     ("scalar-to-json-int64-number", "C05", "J1", [(I, "    if proto_type in INT_64_TYPES:\n        return str(value)\n", "")]),
     ("duration-text-through-float", "C15", "Q4", [(I, "        sign = -1 if text.startswith(\"-\") else 1\n        seconds, _, fraction = text.lstrip(\"+-\").partition(\".\")\n        nanos = int(fraction[:9].ljust(9, \"0\")) if fraction else 0\n        return sign * timedelta(seconds=int(seconds or 0), microseconds=nanos / 1e3)", "        return timedelta(seconds=float(text))")]),
     ("optional-message-json-presence-dropped", "C04", "J5", [(I, "                    value._serialized_on_wire\n                    or include_default_values\n                    or meta.optional\n                    or self._include_default_value_for_oneof(\n                        field_name=field_name, meta=meta\n                    )\n                ):\n                    output[cased_name] = value.to_dict(casing, include_default_values)", "                    value._serialized_on_wire\n                    or include_default_values\n                    or self._include_default_value_for_oneof(\n                        field_name=field_name, meta=meta\n                    )\n                ):\n                    output[cased_name] = value.to_dict(casing, include_default_values)")]),
+    ("key-table-camel-only", "C19", "I3", [(I, "            for casing in (Casing.CAMEL, Casing.SNAKE):\n                by_key.setdefault", "            for casing in (Casing.CAMEL,):\n                by_key.setdefault")]),
+    ("key-table-not-consulted", "C04", "I3", [(I, "            field_name = cls._betterproto.field_name_by_key.get(\n                key\n            ) or safe_snake_case(key)\n", "            field_name = safe_snake_case(key)\n")]),
+    ("key-table-without-rstrip", "C19", "I3", [(I, "                by_key.setdefault(casing(field_name).rstrip(\"_\"), field_name)", "                by_key.setdefault(casing(field_name), field_name)")]),
     ("mismatch-check-dropped", "C17", "M4", [(I, "            if not _wire_type_matches(parsed.wire_type, meta.proto_type, repeated):", "            if False:")]),
     ("packed-into-singular", "C17", "M4", [(I, "            repeated = proto_meta.default_gen[field_name] is list\n", "            repeated = True\n")]),
     ("empty-map-entry-dropped", "C01", "T4", [(I, "                            sk + sv,\n                            # An entry with default key and value is still an entry.\n                            serialize_empty=True,", "                            sk + sv,")]),
@@ -135,6 +136,7 @@ CODEC = ["C01", "C02", "C06", "C08", "C09", "C10", "C16", "C17", "C20"]
 
 # (id, properties that must stay at exit 0, edits)  -- behaviour-preserving refactors
 SILENT: List[Tuple[str, List[str], List[Any]]] = [
+    ("key-lookup-if-form", ["C04", "C05", "C19"], [(I, "            field_name = cls._betterproto.field_name_by_key.get(\n                key\n            ) or safe_snake_case(key)\n", "            field_name = cls._betterproto.field_name_by_key.get(key)\n            if not field_name:\n                field_name = safe_snake_case(key)\n")]),
     ("map-key-true-membership", ["C04", "C05"], [(I, "        return key == \"true\" if isinstance(key, str) else key\n", "        return key in (\"true\",) if isinstance(key, str) else key\n")]),
     ("len-map-entry-without-serialising", CODEC, [(I, '                    sk = _serialize_single(1, meta.map_types[0], k)\n                    sv = _serialize_single(2, meta.map_types[1], v)\n                    size += _len_single(\n                        meta.number, meta.proto_type, sk + sv, serialize_empty=True\n                    )\n', '                    entry_size = _len_single(1, meta.map_types[0], k)\n                    entry_size += _len_single(2, meta.map_types[1], v)\n                    size += (\n                        size_varint((meta.number << 3) | 2)\n                        + size_varint(entry_size)\n                        + entry_size\n                    )\n')]),
     ("constants-as-tuples", CODEC + ["C04", "C05"], [(I, "FIXED_TYPES = [\n    TYPE_FLOAT,\n    TYPE_DOUBLE,\n    TYPE_FIXED32,\n    TYPE_SFIXED32,\n    TYPE_FIXED64,\n    TYPE_SFIXED64,\n]", "FIXED_TYPES = (\n    TYPE_FLOAT,\n    TYPE_DOUBLE,\n    TYPE_FIXED32,\n    TYPE_SFIXED32,\n    TYPE_FIXED64,\n    TYPE_SFIXED64,\n)"),
